@@ -170,7 +170,7 @@ VARNAMES = [("schema", "type_map"), ("my_schema", "types_by_name")]
 FORMATS = ["py", "graphql", "gql"]
 
 
-def run_case(desc_i, def_i, flag_i, fmt_i, var_i, introspected: bool):
+def run_case(desc_i, def_i, flag_i, fmt_i, var_i, introspected: bool, after_client: bool = False):
     from graphql import build_schema, print_schema
 
     sdl = build_sdl(desc_i, def_i, FLAGSETS[flag_i])
@@ -192,6 +192,11 @@ def run_case(desc_i, def_i, flag_i, fmt_i, var_i, introspected: bool):
         cfg["remote_schema_url"] = "http://x/graphql"
     else:
         job["schema"] = sdl
+    if after_client:
+        # history: the client strategy ran earlier in this process on the very same schema text (it adds @mixin to ITS schema)
+        rc = gen.generate({"schema": sdl, "queries": "query Q { __typename }", "config": {}})
+        if not rc["ok"]:
+            return "gen_failed", [f"client run before the schema run failed: {rc['exc_type']}: {rc['exc_msg'][:200]}"]
     r = gen.generate(job)
     if not r["ok"]:
         return "gen_failed", [f"{r['exc_type']}: {r['exc_msg'][:200]}"]
@@ -242,6 +247,17 @@ def _check(desc: int, dflt: int, flg: int, fmt: int, var: int, intro: bool) -> b
     if kid:
         return known(kid)
     return False
+
+
+def check_schema_after_client_run(desc: int, flg: int, fmt: int) -> bool:
+    """
+    post: _
+    """
+    a, c, e = pick(desc, 3), pick(flg, NFLAG), pick(fmt, NFMT)
+    with NoTracing():
+        with opened_auditwall():
+            status, probs = run_case(a, 4, c, e, 0, False, True)
+    return status in ("ok", "invalid_case")
 
 
 def parts_source() -> str:
